@@ -92,7 +92,9 @@ def fullfact_levels(args):
 
     def body(ctx):
         params, box = doecommon.sym_parameters(ctx, len(counts))
-        vals = [_levels(ctx, 'f%d' % j, k) for j, k in enumerate(counts)]
+        # large factors get concrete distinct level values (130 symbolic levels would need 8385 disequalities);
+        # the solver still quantifies over the small factors' values and over the combination index
+        vals = [_levels(ctx, 'f%d' % j, k) if k <= 8 else [float(3 * i + 1) for i in range(k)] for j, k in enumerate(counts)]
         g = O.FullFactorLevelsGenerator(params)
         g.init([list(v) for v in vals])
         rows = g.generate()
@@ -215,7 +217,7 @@ def configs(tier):
         for center in (False, True):
             out.append({'name': 'fullfact-n%d%s' % (n, '-center' if center else ''), 'task': 'fullfact', 'args': {'n': n, 'center': center},
                         'weight': (3 if center else 2) ** n, 'engine': ve})
-    for counts in ([[2, 3], [3, 2, 2], [4, 3]] if Q else [[2, 3], [3, 2, 2], [4, 3], [4, 4], [3, 4, 2, 2], [2, 2, 2, 2]]):
+    for counts in ([[2, 3], [3, 2, 2], [4, 3], [130, 2]] if Q else [[2, 3], [3, 2, 2], [4, 3], [4, 4], [3, 4, 2, 2], [2, 2, 2, 2], [130, 2], [2, 300], [260, 3]]):
         out.append({'name': 'fullfact-levels-%s' % 'x'.join(map(str, counts)), 'task': 'fullfact_levels', 'args': {'counts': counts},
                     'weight': math.prod(counts), 'engine': ve})
     for n in range(1, 24):
